@@ -128,34 +128,35 @@ int tickit_bindings_bind_event(struct TickitBindings *bindings, void *owner, int
 
 void tickit_bindings_unbind_event_id(struct TickitBindings *bindings, void *owner, int id)
 {
-  for(struct TickitBinding **bindp = &bindings->first; *bindp; ) {
-    struct TickitBinding *bind = *bindp;
-    if(bind->id != id) {
-      bindp = &(bind->next);
-      continue;
-    }
+  struct TickitBinding *bind;
+  for(bind = bindings->first; bind; bind = bind->next)
+    if(bind->id == id)
+      break;
+  if(!bind)
+    return;
 
-    if(bind->flags & TICKIT_EV_UNBIND)
-      (*bind->fn)(owner, TICKIT_EV_UNBIND, NULL, bind->data);
+  TickitEventFn *fn = bind->fn;
+  void *data = bind->data;
+  bool notify = bind->flags & TICKIT_BIND_UNBIND;
 
-    // zero out the structure
-    bind->evindex = -1;
-    bind->fn = NULL;
+  /* Mark it as deleted before telling it, and defer the actual removal as if
+   * iterating, because the handler may itself bind, unbind or run events
+   */
+  bind->id = BINDING_ID_TOMBSTONE;
+  bind->evindex = -1;
+  bind->flags = 0;
+  bind->fn = NULL;
+  bindings->needs_delete = true;
 
-    if(!bindings->is_iterating) {
-      *bindp = bind->next;
-      bind->next = NULL;
+  int was_iterating = bindings->is_iterating;
+  bindings->is_iterating = true;
 
-      free(bind);
-      /* no bindp update */
-    }
-    else {
-      bindings->needs_delete = true;
+  if(notify)
+    (*fn)(owner, TICKIT_EV_UNBIND, NULL, data);
 
-      bind->id = BINDING_ID_TOMBSTONE;
-      bindp = &(bind->next);
-    }
-  }
+  bindings->is_iterating = was_iterating;
+  if(!was_iterating && bindings->needs_delete)
+    cleanup(bindings);
 }
 
 void tickit_bindings_unbind_and_destroy(struct TickitBindings *bindings, void *owner)
